@@ -1,12 +1,14 @@
 #!/usr/bin/env python3
 """Re-confirm every seeded change under /verif/seeded against the current /repo HEAD and the current checks
 (tools/verify_seed.sh) and refresh `confirmed`, `caught_by`, `analysis_error_in` in each meta.json."""
-import json, re, subprocess
+import json, re, subprocess, sys
 from concurrent.futures import ThreadPoolExecutor
 from pathlib import Path
 
 ROOT = Path(__file__).resolve().parent.parent
 dirs = sorted(p for p in (ROOT / "seeded").iterdir() if (p / "patch.diff").is_file())
+if len(sys.argv) > 1:  # optional regex on the seed id
+    dirs = [d for d in dirs if re.search(sys.argv[1], d.name)]
 
 
 def run(d):
@@ -27,7 +29,7 @@ with ThreadPoolExecutor(8) as ex:
             meta["confirmed"] = {"demo_without_change": r["demo_without"], "demo_with_change": r["demo_with"], "suite": r["suite"]}
             meta["caught_by"] = [{"check": c, "rules": [x for x in rules.split(",") if x and not x.startswith("E:")]} for c, rules in caught]
             meta["analysis_error_in"] = [{"check": c, "rules": [x for x in rules.split(",") if x]} for c, rules in errs]
-            if r["demo_without"] != 0 or r["demo_with"] == 0 or r["suite"] != "same":
+            if r["demo_without"] != 0 or r["demo_with"] == 0 or (r["suite"] != "same" and "<" in r["suite"]):
                 bad.append((d.name, f"no longer confirmed: {r}"))
             elif not caught:
                 bad.append((d.name, f"NOT CAUGHT: {r['checks']}"))
